@@ -56,7 +56,7 @@ def analyse(text, label, seed, permille):
     by = {}
     for thr, evs in per.items():
         for e in evs:
-            by.setdefault(e.obj // 4, {}).setdefault(thr, []).append(e)
+            by.setdefault(e.obj // 8, {}).setdefault(thr, []).append(e)
 
     def bump(k, n=1):
         stats[k] = stats.get(k, 0) + n
@@ -73,7 +73,7 @@ def analyse(text, label, seed, permille):
         bump("scen_" + SCENS[d["scen"]])
         thr_ev = by.get(rd, {})
         allev = sorted((e for evs in thr_ev.values() for e in evs), key=lambda e: e.seq)
-        user = [e for e in allev if e.obj % 4 == 0 and e.kind >= 100]
+        user = [e for e in allev if e.obj % 8 == 0 and e.kind >= 100]
         end = [e.seq for e in user if e.kind == 104 and e.a == 99]
         endseq = end[0] if end else 1 << 62
         ehb = [e for e in user if e.kind == 102 and e.a == 0]
@@ -153,13 +153,13 @@ def analyse(text, label, seed, permille):
             fail(rd, "final-state", "final state differs: flags=%#x handler slots=%d%d%d du_state=%d (expected CANCELED|DELETED, no "
                  "waiter/needs-event bit, slots released, unregistered)" % (ff, d["h0"], d["h1"], d["h2"], d["du_state"]))
         # --- white-box record: cancel-handler slot taken non-null at most once
-        takes = [e for e in allev if e.obj % 4 == 1 and e.kind == 3 and e.off == 8 and e.a != 0 and e.b == 0 and e.seq < endseq]
+        takes = [e for e in allev if e.obj % 8 == 1 and e.kind == 3 and e.off == 8 and e.a != 0 and e.b == 0 and e.seq < endseq]
         if len(takes) > 1:
             fail(rd, "slot-taken-twice", "the cancel handler slot was taken non-NULL %d times" % len(takes))
         # --- per-thread traces for the monitor: events on dq_atomic_flags and marks, up to the end mark
         sv = (2 if d["type"] == 0 else 0) + (1 if d["type"] == 1 else 0)
         for thr, evs in thr_ev.items():
-            tr = [e for e in evs if e.obj % 4 == 0 and e.seq < endseq and e.off == 0]
+            tr = [e for e in evs if e.obj % 8 == 0 and e.seq < endseq and e.off == 0]
             if tr:
                 traces.append((sv, tr, rd, thr))
                 bump("flag_writes", sum(1 for e in tr if e.kind in (4, 5, 9) and (e.ok & 1)))
